@@ -6,7 +6,7 @@ open TTV.Result
 /-- a linear stack (`ExtendedToOriginalDecorator` / `TestResultDecorator` / `Tagger` layers) over a `TestByTestResult` -/
 def linearTbt : Shape → Bool
   | .tbt => true
-  | .etod c | .deco c | .tagger _ _ c | .ffbox _ _ c => linearTbt c
+  | .etod c | .deco c | .tagger _ _ c => linearTbt c
   | _ => false
 
 /-- `faults`: the tests for which the user's `on_test` callback raises (after having been called).  Only for
